@@ -753,6 +753,45 @@ def radius_append_rule(rep, u):
     if attr_at != PKT + OLD:
         bad.append("attribute placed at offset %s, packet ended at %d" % (None if attr_at is None else attr_at - PKT, OLD))
     (rep.violated if bad else rep.proved)("R-LAYOUT", fn, inst, desc, "; ".join(bad) if bad else "len %d -> %d, attr->len %d" % (OLD, newlen, alen))
+    # "a packet assembled from attributes passes the library's checks": whatever length the builder stores, the validator's
+    # length test (<= RADIUS_PKT_MAX_SIZE, and it fits the 16-bit field) accepts - for old lengths around the limit and
+    # caller buffers larger than a RADIUS packet may be
+    mx = macro_consts(["RADIUS_PKT_MAX_SIZE"]).get("RADIUS_PKT_MAX_SIZE")
+    if mx is None:
+        raise driver.AnalysisBroken("RADIUS_PKT_MAX_SIZE not foldable")
+    bad2 = und2 = None
+    cases = 0
+    for old_len, ln, cap in itertools.product((20, mx - 300, mx - 10, mx - 2, mx, 65400, 65534), (0, 6, 253), (mx, 2 * mx, 70000)):
+        if old_len > cap:
+            continue
+        pe2 = r_stride.PE(u)
+        pe2.wrap = True
+        ev2, ret2 = pe2.trace(fn, dict(bind, **{"pkt_buf_size": cap, "len": ln, "ntohs(pkt->len)": old_len}))
+        cases += 1
+        if isinstance(ret2, str):
+            und2 = und2 or ret2
+            continue
+        if ret2 != 0:
+            continue
+        stored = None
+        for e, b in ev2:
+            for x, _ in walk(e):
+                if x.get("k") == "bin" and x["op"] == "=" and key(strip_casts(x["x"])) == "pkt->len":
+                    rv = strip_casts(x["y"])
+                    if rv.get("k") == "call" and rv.get("fn") == "htons":
+                        try:
+                            stored = r_mpt.eval_expr(rv["args"][0], {}, pe2._hook(b, {}))
+                        except r_mpt.Unknown:
+                            stored = None
+        want = old_len + 2 + ln
+        if stored is None:
+            und2 = und2 or "stored length not evaluable"
+        elif stored != want or stored > mx:
+            bad2 = bad2 or "packet of %d bytes in a %d-byte buffer, %d data bytes: success with header length %d%s" % (
+                old_len, cap, ln, stored, " (the 16-bit field wrapped, the packet has %d bytes)" % want if stored != want else
+                " > RADIUS_PKT_MAX_SIZE %d: radius_pkt_chk rejects the packet the builder just made" % mx)
+    desc2 = "radius_pkt_attr_alloc_raw never stores a packet length the validator rejects (<= %d, no 16-bit wrap)" % mx
+    (rep.violated if bad2 else rep.undecided if und2 else rep.proved)("R-AGREE", fn, "length-limit", desc2, bad2 or und2 or "%d cases" % cases)
     return 1
 
 
